@@ -143,7 +143,7 @@ def check_track(ctx, tr, tl, w, bpm, name=None, instrument=None, metas=True, fir
         cc = [e for e in tr if e["kind"] == "cc"]
         pc = [e for e in tr if e["kind"] == "pc"]
         firsts = [f for f in tl["first_notes"] if f is not None]
-        if instrument.get("kind") == "midi":
+        if instrument.get("nr") is not None:
             okb = len(cc) == len(firsts) and all(e["ch"] == f[1] and e["d1"] == 0 and e["tick"] == f[0] for e, f in zip(cc, firsts))
             okp = len(pc) == len(firsts) and all(e["ch"] == f[1] and e["d1"] == instrument["nr"] and e["tick"] == f[0] for e, f in zip(pc, firsts))
             ctx.check("instrument: a bank select (controller 0) on the first note's channel at the first note's tick", okb, w,
@@ -224,7 +224,7 @@ def run(shard, ctx):
                     has_trailing_rest_between_reps = False
                     if spec is not None and repeat > 0 and what in ("track", "composition"):
                         last = spec["bars"][-1]["entries"] if spec["bars"] else []
-                        has_trailing_rest_between_reps = bool(last) and last[-1]["notes"] is None or (
+                        has_trailing_rest_between_reps = bool(last) and not last[-1]["notes"] or (
                             not any(e["notes"] for b in spec["bars"] for e in b["entries"]))
                     shape = {"repeat": repeat, "what": what, "trailing_rest": has_trailing_rest_between_reps}
                     ww = dict(w, shape=shape)
